@@ -57,3 +57,11 @@ Proof.
   - apply RT_list; [reflexivity|]. repeat constructor.
   - apply RT_obj; [reflexivity|intros; reflexivity|]. repeat constructor.
 Qed.
+
+From Cty Require Import RawRefl RawEq.
+
+(* the round trip in the property's own terms: the decoded value is RawEquals to the original, at every depth *)
+Theorem C16_structural_roundtrip_raw_equal : forall norm unk trunc jp t p, RT norm unk t p -> wf_ty t = true ->
+  exists m r, mp_marshal trunc (V t p) t = Ok m /\ mp_unmarshal norm jp m t = Ok r /\ raw_equals r (V t p) = Ok true.
+Proof. exact mp_roundtrip_raw_equal. Qed.
+Print Assumptions C16_structural_roundtrip_raw_equal.
